@@ -2,6 +2,8 @@ package props
 
 import (
 	"bytes"
+	"crypto/sha256"
+	"encoding/hex"
 	"fmt"
 	"google.golang.org/protobuf/encoding/protowire"
 	"os"
@@ -164,7 +166,14 @@ var c19Variants = func() []ExtSpec {
 	return out
 }()
 
-// outcome is what reading+parsing the given state yields: skipOutcome or the dump of the parse.
+// outcomeDigest stands for a canonical dump wherever outcomes are only compared: the memo of one large directory
+// (a thousand files under sixteen parse hypotheses) held several GiB of dump text before.
+func outcomeDigest(dump string) string {
+	sum := sha256.Sum256([]byte(dump))
+	return "d:" + hex.EncodeToString(sum[:16])
+}
+
+// outcome is what reading+parsing the given state yields: skipOutcome or (the digest of) the dump of the parse.
 func (d *dirSim) outcome(isFile bool, data []byte) string {
 	if !isFile {
 		return skipOutcome
@@ -186,7 +195,7 @@ func (d *dirSim) outcome(isFile bool, data []byte) string {
 	r, err, pv, _ := parseRT(append([]byte(nil), data...), c19Variants[d.variant].Fresh())
 	o := skipOutcome
 	if pv == nil && err == nil {
-		o = sim.Dump(r, SortNorm)
+		o = outcomeDigest(sim.Dump(r, SortNorm))
 	}
 	d.cache[h] = o
 	return o
@@ -500,7 +509,7 @@ func (tee *c19Tee) Next() *gtfs.Realtime {
 	}
 	got := ""
 	if r != nil {
-		got = sim.Dump(r, SortNorm)
+		got = outcomeDigest(sim.Dump(r, SortNorm))
 	}
 	var alive []*c19Hyp
 	logged := false
@@ -729,6 +738,16 @@ func genC19Case(t *sim.T, tier string) *c19Case {
 		// 128 MiB description text, dumped once per parse hypothesis, cost the harness itself more than 5 GiB)
 		c.good[i] = padUnknown(c.good[i], []int{16 << 20, 64 << 20, 128 << 20}[t.Choose(3)]+t.Choose(4096))
 		t.Probe("giant-good-file")
+	}
+	if os.Getenv("VERIF_C19_DEBUG") != "" {
+		tb, mx := 0, 0
+		for _, g := range c.good {
+			tb += len(g)
+			if len(g) > mx {
+				mx = len(g)
+			}
+		}
+		fmt.Fprintf(os.Stderr, "[c19-debug] good files %d, total %d bytes, largest %d bytes, trips per feed cfg %d, long lines %v\n", len(c.good), tb, mx, cfg.Trips, cfg.LongLines)
 	}
 	nBad := t.Choose(7)
 	if !large && nGood+nBad > 14 {
